@@ -138,8 +138,7 @@ macro_rules! cts_harness {
             let c = $cipher::new(nd::any());
             let iv: [u8; $b] = nd::any();
             let data: [u8; $maxl] = nd::any();
-            let len: usize = nd::any::<u8>() as usize;
-            nd::assume(len <= $maxl);
+            let len: usize = nd::upto($maxl);
             let b2b: bool = nd::any();
             let garbage: [u8; $maxl] = nd::any();
             let mut buf = data;
